@@ -122,14 +122,8 @@ static Bytes ser(PDU& p) {
 struct FieldInfo { std::string cls, name; std::set<long> bits; };
 static std::vector<FieldInfo> g_fields;   // per job: bit sets of the scalar fields of the classes it handled
 
-template <class Q, class Arg> struct Runner {
-    const char* T; const char* N;
-    void (Q::*set)(Arg);
-    std::string key() const { return std::string(T) + "." + N; }
-    typedef typename std::decay<Arg>::type V;
-
-    PDU* prior(int which) {
-        PDU* o = make_default((Q*)0);
+// priors: 0 default object; 1 every scalar settable field at its maximum sample; 2 alternating bit pattern
+static PDU* apply_prior(PDU* o, int which) {
         if (!o) return 0;
         if (which == 0) return o;
         // 1: every settable field of the object at its maximum sample; 2: alternating bit pattern
@@ -139,8 +133,17 @@ template <class Q, class Arg> struct Runner {
 #include "api.inc"
 #undef API_PAIR
         return o;
-    }
+}
 
+// One instantiation per VALUE type (not per class): the class-specific parts are the two type-erased callables.
+template <class V> struct Runner {
+    const char* T; const char* N;
+    std::function<PDU*()> make;
+    std::function<void(PDU&, const V&)> setv;
+    std::string key() const { return std::string(T) + "." + N; }
+    PDU* prior(int which) { return apply_prior(make(), which); }
+    // minimal stand-in so that the body below keeps its shape: (q.*set)(v) == setv(q, v)
+    struct SetProxy { const Runner* r; };
     void run(bool thorough, uint64_t& idx) {
         std::string k = key();
         std::vector<V> vals = Fam<V>::all();
@@ -151,7 +154,7 @@ template <class Q, class Arg> struct Runner {
             std::unique_ptr<PDU> t(prior(0));
             if (!t) { R.count("fields_uninstantiable"); return; }
             auto s0 = snapshot(*t);
-            try { (static_cast<Q&>(*t).*set)(probes[0]); } catch (std::exception& e_) { if (!mc::tins_exc(e_)) throw;}
+            try { setv(*t, probes[0]); } catch (std::exception& e_) { if (!mc::tins_exc(e_)) throw;}
             auto s1 = snapshot(*t);
             bool optionlike = false;
             for (auto& kv : s0) if ((list_key(kv.first) || (kv.first.size() > 12 && kv.first.compare(kv.first.size() - 12, 12, ".header_size") == 0)) && s1[kv.first] != kv.second) optionlike = true;
@@ -163,7 +166,7 @@ template <class Q, class Arg> struct Runner {
         for (int pr = 0; pr < 3; ++pr) {
             std::unique_ptr<PDU> o(prior(pr));
             if (!o) { R.count("fields_uninstantiable"); return; }
-            Q& q = static_cast<Q&>(*o);
+            PDU& q = *o;
             std::string ctx = "field=" + k + " prior=" + std::to_string(pr);
             // (a) exact inverse or clean rejection, for every value of the family
             auto base = snapshot(*o);
@@ -175,7 +178,7 @@ template <class Q, class Arg> struct Runner {
                 if ((vi & 0x3ff) == 1) set_case(my, "C15", ctx + " value=" + show(v));
                 Mon::reset();
                 bool threw = false;
-                try { (q.*set)(v); } catch (std::exception& e_) { if (!mc::tins_exc(e_)) throw; threw = true; }
+                try { setv(q, v); } catch (std::exception& e_) { if (!mc::tins_exc(e_)) throw; threw = true; }
                 R.count("evaluations");
                 std::string got;
                 try { got = getter_value(*o, k); } catch (exception_base& e) { got = std::string("!") + typeid(e).name(); }
@@ -204,9 +207,9 @@ template <class Q, class Arg> struct Runner {
                 for (size_t pi = 0; pi < pv.size() && fi_ok; ++pi) {
                     const V& v = pv[pi];
                     std::unique_ptr<PDU> a(prior(pr)), b(prior(pr));
-                    Q& qa = static_cast<Q&>(*a); Q& qb = static_cast<Q&>(*b);
+                    PDU& qa = *a; PDU& qb = *b;
                     auto s0 = snapshot(*a);            // the prior state, before the field is touched
-                    try { (qa.*set)(basev); (qb.*set)(v); } catch (std::exception& e_) { if (!mc::tins_exc(e_)) throw; if (bl == 0 && (int)pi < w) rejected[pi] = 1; continue; }
+                    try { setv(qa, basev); setv(qb, v); } catch (std::exception& e_) { if (!mc::tins_exc(e_)) throw; if (bl == 0 && (int)pi < w) rejected[pi] = 1; continue; }
                     auto sa = snapshot(*a), sb = snapshot(*b);
                     // no other getter may move relative to the PRIOR state (a setter that clobbers a neighbour does so for every value)
                     for (auto& kv : s0) {
@@ -287,7 +290,10 @@ template <class Q, class Arg> struct Runner {
 };
 
 template <class C, class A> A setter_param(void (C::*)(A));
-template <class Q, class A> Runner<Q, A> make_runner(const char* T, const char* N, void (Q::*set)(A)) { return Runner<Q, A>{T, N, set}; }
+template <class Q, class A> Runner<typename std::decay<A>::type> make_runner(const char* T, const char* N, void (Q::*set)(A)) {
+    typedef typename std::decay<A>::type V;
+    return Runner<V>{T, N, []() -> PDU* { return make_default((Q*)0); }, [set](PDU& p, const V& v) { (static_cast<Q&>(p).*set)(v); }};
+}
 
 struct Job { std::function<void(bool, uint64_t&)> fn; std::string key; };
 static std::vector<Job> jobs() {
